@@ -211,10 +211,13 @@ def rule_r2(ctx):
     repo = ctx.repo
     for key in ("onnx_ir._io:save", "onnx_ir.external_data:unload_from_model", "onnx_ir.external_data:load_to_model",
                 "onnx_ir._safetensors:save_safetensors"):  # fmt: skip
-        f = repo.func(key)
-        reads = [n for n in own_nodes(f.node) if isinstance(n, ast.Attribute) and n.attr == "initializers"]
-        ctx.require(bool(reads), f"{key}: does not read .initializers")
-        for n in reads:
+        f0 = repo.func(key)
+        # the function itself and the private helpers of its module that it calls (a generator over the initialized values)
+        hosts = [f0] + [g for c in calls_in(f0) for g in [f0.module.functions.get(dotted_of(c.func) or "")]
+                        if g is not None and g.name.startswith("_") and not isinstance(g.node, ast.Lambda)]
+        sites = [(h, n) for h in hosts for n in own_nodes(h.node) if isinstance(n, ast.Attribute) and n.attr == "initializers"]
+        ctx.require(bool(sites), f"{key}: does not read .initializers")
+        for f, n in sites:
             recv = n.value
             ok = False
             if isinstance(recv, ast.Name):
